@@ -6,7 +6,7 @@ From Coq Require Import String List NArith Bool.
 From J5V.lib Require Import Outcome Strcase.
 From J5V.model Require Import J5sAst Desc J5sWalk J5sLink J5sConvert J5sContract J5sSymbols J5sTypeNames J5sValid J5sCorr.
 From J5V.gen Require ImportsGen.
-From J5V.proofs Require Import J5sProofs J5sContractProofs J5sLinkProofs J5sResolveProofs J5sResolveCompleteProofs J5sServiceProofs J5sTotalProofs J5sSymbolProofs J5sCompileProofs J5sSubPkgProofs J5sDepsProofs J5sNameProofs J5sTypeNameProofs J5sWitnessProofs J5sStrictProofs StrcaseProofs J5sStrcaseProofs.
+From J5V.proofs Require Import J5sProofs J5sContractProofs J5sLinkProofs J5sResolveProofs J5sResolveCompleteProofs J5sServiceProofs J5sTotalProofs J5sSymbolProofs J5sCompileProofs J5sSubPkgProofs J5sDepsProofs J5sNameProofs J5sTypeNameProofs J5sWitnessProofs J5sStrictProofs StrcaseProofs J5sStrcaseProofs J5sInfraProofs.
 Import ListNotations.
 Local Open Scope N_scope.
 
@@ -344,6 +344,67 @@ Proof.
   exists D. split; [exact Hc|]. exact (contract_strict_of_plain to_snake to_camel to_screaming_snake bd pkg D Hp Hok).
 Qed.
 Print Assumptions C02_full.
+
+(* ---- WHICH infrastructure files a construct needs: the model's import lists against the tables
+   the translator reads off fields.go / conversion.go / service.go on every run (per switch arm /
+   function: the constants passed to ensureImport on every path to its end - setJ5Ext counts as
+   j5ExtImport - and those ensured only under a nested condition; values from imports.go) *)
+Theorem C02_infrastructure_tables_agree :
+  forallb scalar_infra_ok all_scalars = true /\ other_infra_ok = true.
+Proof. exact (conj scalar_infra_agree other_infra_agree). Qed.
+Print Assumptions C02_infrastructure_tables_agree.
+
+(* for EVERY scalar type: what the model imports for the field contains what the Go arm always
+   ensures (well-known type file, annotations) and nothing the arm does not ensure *)
+Theorem C02_scalar_imports_from_go_table : forall s,
+  exists u c, row ImportsGen.field_infra (arm_of_scalar s) = Some (u, c) /\
+    incl (vals u) (fc_imports (scalar_core s)) /\
+    incl (fc_imports (scalar_core s)) (vals u ++ vals c).
+Proof. exact scalar_imports_from_go_table. Qed.
+Print Assumptions C02_scalar_imports_from_go_table.
+
+(* ... and every scalar type written at any depth of a run of properties that converts brings
+   those files into the imports collected for the generated file *)
+Theorem C02_scalar_infrastructure_imported : forall snake camel screaming ev ps path io n r,
+  cv_props snake camel screaming ev path io n ps = Ok r ->
+  forall s, In s (scalars_of_props ps) ->
+    exists u c, row ImportsGen.field_infra (arm_of_scalar s) = Some (u, c) /\ incl (vals u) (pr_imports r).
+Proof. exact props_infra_from_go_table. Qed.
+Print Assumptions C02_scalar_infrastructure_imported.
+
+(* a reference imports the defining file of its target and exactly the always-ensured files of
+   the Field_Object / Field_Oneof / Field_Enum arm (other_infra_ok ties ref_infra to the table) *)
+Theorem C02_reference_imports : forall ev r we c,
+  ref_core ev r we = Ok c -> exists t, resolve ev r = Ok t /\ fc_imports c = tr_file t :: ref_infra we.
+Proof. exact ref_imports_from_go_table. Qed.
+Print Assumptions C02_reference_imports.
+
+(* required properties, arrays, declared objects, topics, methods: the always-ensured files of
+   the corresponding Go block are among the imports the model collects *)
+Theorem C02_construct_imports : forall snake camel screaming,
+  (forall ev path io num n op f r,
+     cv_property snake camel screaming ev path io num (Property n true op f) = Ok r ->
+     exists u c, row ImportsGen.property_infra "if required"%string = Some (u, c) /\ incl (vals u) (pr_imports r)) /\
+  (forall ev path io num n rq op it r,
+     cv_property snake camel screaming ev path io num (Property n rq op (FArray it)) = Ok r ->
+     exists u c, row ImportsGen.property_infra "Field_Array"%string = Some (u, c) /\ incl (vals u) (pr_imports r)) /\
+  (forall ev path nm ps subs ms es is,
+     cv_nested snake camel screaming ev path (NObject nm ps subs) = Ok (ms, es, is) ->
+     exists u c, row ImportsGen.func_infra "conversion.go:visitObjectNode"%string = Some (u, c) /\ incl (vals u) is) /\
+  (forall ev tname topic_name rl virt l ms ss is,
+     accept_topic snake camel screaming ev tname topic_name rl virt l = Ok (ms, ss, is) ->
+     exists u c, row ImportsGen.func_infra "conversion.go:visitTopicNode"%string = Some (u, c) /\ incl (vals u) is) /\
+  (forall ev base m ms dm is,
+     cv_method snake camel screaming ev base m = Ok (ms, dm, is) ->
+     exists u c, row ImportsGen.func_infra "service.go:visitServiceMethodNode"%string = Some (u, c) /\
+       incl (vals u) is /\ (m_response m = None -> In imp_httpbody is /\ In imp_httpbody (vals c))).
+Proof.
+  intros snake camel screaming. split; [exact (required_imports_from_go_table snake camel screaming)|].
+  split; [exact (array_imports_from_go_table snake camel screaming)|].
+  split; [exact (object_imports_from_go_table snake camel screaming)|].
+  split; [exact (topic_imports_from_go_table snake camel screaming)|exact (method_imports_from_go_table snake camel screaming)].
+Qed.
+Print Assumptions C02_construct_imports.
 
 (* ---- the contract with the byte-exact strcase functions put in (lib/Strcase.v; facts of
    proofs/StrcaseProofs.v), for names of the documented shape: lowerCamel property names and
